@@ -377,6 +377,10 @@ def run(ctx: Ctx) -> None:
     enumerate_trie(nodes, maxn, False, "exhaustive", sample_last=frac, rng=ctx.rng)
     n_exh = len(nodes)
     enumerate_trie(nodes, ctx.pick(3, 4), True, "exhaustive-explicit-object")
+    if not ctx.quick():
+        before = len(nodes)
+        enumerate_trie(nodes, 5, True, "sampled-explicit-object-5", sample_last=0.02, rng=ctx.rng)
+        ctx.coverage["mro_explicit_object_5_sampled"] = len(nodes) - before
     random_hierarchies(nodes, ctx, ctx.pick(250, 3000))
     ctx.coverage["mro_rule"] = (f"every hierarchy with ≤ {maxn} classes (bases = ordered subsets of earlier classes; trie cut below "
                                 f"a class that fails at run time): {n_exh} class statements"
@@ -506,6 +510,8 @@ def replay(ctx: Ctx, det: dict) -> int:
     for k in range(1, len(h) + 1):
         real_my = canon_mypy(nodes[k], raw[k])
         v = property_verdict(nodes[k].py, real_my)
-        print(f"class {k}: CPython {nodes[k].py} | mypy {real_my} | model {model[k - 1]} | property: {v or 'holds'}")
-        rc = rc or (1 if v else 0)
+        same = model[k - 1] == f"py={nodes[k].py} my={real_my}"
+        print(f"class {k}: CPython {nodes[k].py} | mypy {real_my} | model {model[k - 1]} | property: {v or 'holds'}"
+              + ("" if same else " | correspondence: BROKEN"))
+        rc = rc or (1 if v or not same else 0)
     return rc
